@@ -79,6 +79,9 @@ func orderHash(st *store.Store) string {
 	return fmt.Sprintf("%x", h.Sum(nil)[:8])
 }
 
+// withWidthNoLock runs f; the link width is set by the caller for all goroutines at once.
+func withWidthNoLock(f func()) { f() }
+
 func TestC10(t *testing.T) {
 	r := mon.Start(t, "C10")
 	defer r.Close()
@@ -331,8 +334,18 @@ func TestC10(t *testing.T) {
 				res.order = orderHash(st)
 				return res
 			}
+			pristine := append([]dagpb.PBLink(nil), entries...)
 			b0 := build(entries)
 			orders := map[string]bool{b0.order: true}
+			if len(entries) >= 3 {
+				// the caller's slice after a build: a part of it builds what a part of an untouched copy builds
+				k := 1 + rr.Intn(len(entries)-1)
+				part, ref := build(entries[:k]), build(pristine[:k])
+				c.Count("builds_compared", 1)
+				if part.key() != ref.key() {
+					c.Violation("C10|dir|caller-slice-changed|"+d.Builder, "%s fanout %d: after a build from a slice of %d entries, its first %d entries build (%s, %d, %q); the first %d entries of a copy taken before build (%s, %d, %q)", d.Builder, d.Fanout, len(entries), k, part.root, part.size, part.err, k, ref.root, ref.size, ref.err)
+				}
+			}
 			for i := 0; i < R; i++ {
 				res := build(entries)
 				c.Count("builds_compared", 1)
@@ -415,6 +428,64 @@ func TestC10(t *testing.T) {
 		})
 	}
 	// symlinks are pure functions of their target text
+	// several files built at the same time (each goroutine its own content, store and link system):
+	// every one of them has to come out as it does when built alone
+	for round := 0; round < r.Pick(4, 24); round++ {
+		round := round
+		r.Case(fmt.Sprintf("file-concurrent/%d", round), map[string]any{"goroutines": 12, "round": round}, func(c *mon.Case) {
+			rr := c.Rand()
+			const G = 12
+			contents := make([][]byte, G)
+			alone := make([]buildResult, G)
+			one := func(content []byte) buildResult {
+				var res buildResult
+				st := store.New()
+				withWidthNoLock(func() {
+					l, sz, err := builder.BuildUnixFSFile(bytes.NewReader(content), "size-7", st.LinkSystem(false))
+					res.root, res.size = linkCid(l), sz
+					if err != nil {
+						res.err = err.Error()
+					}
+				})
+				return res
+			}
+			old := builder.DefaultLinksPerBlock
+			builder.DefaultLinksPerBlock = 3
+			defer func() { builder.DefaultLinksPerBlock = old }()
+			for g := range contents {
+				contents[g] = gen.Content(rr, "rand", 200+rr.Intn(3000))
+				alone[g] = one(contents[g])
+			}
+			for rep := 0; rep < 20; rep++ {
+				got := make([]buildResult, G)
+				var wg sync.WaitGroup
+				start := make(chan struct{})
+				for g := 0; g < G; g++ {
+					wg.Add(1)
+					go func(g int) {
+						defer wg.Done()
+						defer func() {
+							if p := recover(); p != nil {
+								got[g].err = fmt.Sprint("panic: ", p)
+							}
+						}()
+						<-start
+						got[g] = one(contents[g])
+					}(g)
+				}
+				close(start)
+				wg.Wait()
+				c.Count("builds_compared", G)
+				for g := range got {
+					if got[g].key() != alone[g].key() {
+						c.Violation("C10|file|concurrent", "a file of %d bytes built while %d other files are being built comes out as (%s, %d, %q); built alone it is (%s, %d)", len(contents[g]), G-1, got[g].root, got[g].size, got[g].err, alone[g].root, alone[g].size)
+						return
+					}
+				}
+			}
+			c.Sig("file-concurrent", true)
+		})
+	}
 	// quick-builder nodes are values: one node put under several names, in one directory or in two,
 	// gives what separately made nodes give
 	r.Case("quick-node-reuse", map[string]any{"directories": 3}, func(c *mon.Case) {
